@@ -308,6 +308,9 @@ func TestOddLiteralsAndInfo(t *testing.T) {
 			"catch((x => "+rd+")(1))",
 			"zarr = [() => "+rd+"]; zarr[0]()")
 	}
+	for _, v := range []string{"{[1,2,3,4,5,6,7,8,9]: 1}", "{func(x){x}: 1}", "{(x => x): 2, 1: 1}", "{{1:1,2:2,3:3,4:4,5:5}: 1}", "[[1,2,3,4,5,6,7,8,9]]", "[x => x]", "{1: [1,2,3,4,5,6,7,8,9]}", "{1: x => x}", "{[]: 1, {}: 2}", "{nil: nil}", "{1.5: {2.5: [3.5]}}", "[{[1]: [2]}]", "{\"a\": {\"b\": {\"c\": 0:9}}}"} {
+		inputs = append(inputs, "func zid(a) { a }; zid("+v+")", "zid2 = (a, b) => [a, b]; zid2("+v+", "+v+"); zid2("+v+", "+v+")", "func zv(..) { .. }; zv("+v+", 1)", "zk = "+v+"; func zid(a) { a }; zid(zk); del(zk[1]); zid(zk)")
+	}
 	for i, in := range inputs {
 		if pbt.Mine(i) {
 			runCase(t, "odd-literals-info", Case{Inputs: []string{in}})
